@@ -338,163 +338,6 @@ theorem fold_correct_partial (sel : BackendSel) (ctx : NodeCtx) (names : List St
   obtain ⟨r, t, pv', h1, h2, h3, h4⟩ := mapping_correct sel ctx names vals res h hfresh hin ow how pv hpv
   exact ⟨pv'.value, hsem _ r t pv' h1 h2 h3, h4⟩
 
-/-! ### fold_correct over whole histories -/
-
-/-- The payload a Var carries (the `none` payload if it carries nothing). -/
-def payloadOf (st : State) (r : VarRef) : Payload :=
-  match (st.var? r).bind (·.value) with
-  | some pv => pv.value
-  | none => .none
-
-/-- **The hypothesis of `fold_correct`**: on every operator / inlined-model node, each value the
-    backend's result led spox to attach is the node's run-time meaning `sem` applied to the values
-    that were fed - "the backend is extensionally the run-time semantics on constant-fed singleton
-    models". (For Constant / initializer nodes nothing is assumed: that their value is the embedded
-    array is part of the invariant.) -/
-def Faithful (st : State) : Prop :=
-  ∀ (idx : Nat) (n : NodeRec), st[idx]? = some n → (n.kind = .standard ∨ n.kind = .inline) →
-    ∀ o ∈ n.outputs, ∀ pv, o.value = some pv →
-      n.sem (n.inputs.map (payloadOf st)) o.key = some pv.value
-
-theorem step_snoc (v : Variant) (st st' : State) (s : Step) (h : step v st s = .ok st') :
-    ∃ n, st' = st ++ [n] := by
-  cases s with
-  | argument key ty => simp only [step, Except.ok.injEq] at h; exact ⟨_, h.symm⟩
-  | constant key ty p => simp only [step, Except.ok.injEq] at h; exact ⟨_, h.symm⟩
-  | standard sel inputs inNames outs hasSub b sem =>
-    simp only [step] at h
-    split at h
-    · cases h
-    · split at h
-      · cases h
-      · simp only [Except.ok.injEq] at h; exact ⟨_, h.symm⟩
-  | inline sel inputs inNames gnames outs traits b sem =>
-    simp only [step] at h
-    split at h
-    · cases h
-    · split at h
-      · cases h
-      · simp only [Except.ok.injEq] at h; exact ⟨_, h.symm⟩
-
-theorem table_snoc (bind : Nat → Payload) (st : State) (n : NodeRec) :
-    table bind (st ++ [n]) =
-      table bind st ++ [rowOf bind (table bind st) (table bind st).length n] := by
-  simp [table, List.foldl_append]
-
-theorem var?_append_lt (st : State) (n : NodeRec) (r : VarRef) (h : r.node < st.length) :
-    State.var? (st ++ [n]) r = st.var? r := by
-  simp [State.var?, List.getElem?_append_left h]
-
-theorem payloadOf_append (st : State) (n : NodeRec) (i : VarRef) (oi : OutVar)
-    (h : st.var? i = some oi) : payloadOf (st ++ [n]) i = payloadOf st i := by
-  simp [payloadOf, var?_append st n i oi h, h]
-
-theorem Faithful.prefix {st : State} {n : NodeRec} (hr : Reachable Variant.fixed st)
-    (hf : Faithful (st ++ [n])) : Faithful st := by
-  intro idx m hm hk o ho pv hpv
-  have hlt : idx < st.length := by
-    rcases Nat.lt_or_ge idx st.length with h1 | h1
-    · exact h1
-    · simp [List.getElem?_eq_none h1] at hm
-  have hm' : (st ++ [n])[idx]? = some m := by rw [List.getElem?_append_left hlt]; exact hm
-  have := hf idx m hm' hk o ho pv hpv
-  have hok := (reachable_inv st hr idx m hm).2.1 ⟨o, ho, by simp [hpv]⟩
-  have hmap : m.inputs.map (payloadOf (st ++ [n])) = m.inputs.map (payloadOf st) := by
-    apply List.map_congr_left
-    intro i hi
-    obtain ⟨_, oi, h1, _⟩ := hok.2 i hi
-    exact payloadOf_append st n i oi h1
-  rw [hmap] at this
-  exact this
-
-theorem fold_correct_aux (bind : Nat → Payload) (st : State) (h : Reachable Variant.fixed st) :
-    Faithful st →
-      (table bind st).length = st.length ∧
-      ∀ r o pv, st.var? r = some o → o.value = some pv → denote bind st r = some pv.value := by
-  induction h with
-  | empty =>
-    intro _
-    refine ⟨rfl, ?_⟩
-    intro r o pv ho
-    simp [State.var?] at ho
-  | @step st st' s hreach hs ih =>
-    intro hf
-    obtain ⟨n, rfl⟩ := step_snoc _ _ _ s hs
-    have hreach' : Reachable Variant.fixed (st ++ [n]) := Reachable.step s hreach hs
-    obtain ⟨hlen, hvals⟩ := ih (Faithful.prefix hreach hf)
-    refine ⟨by rw [table_snoc]; simp [hlen], ?_⟩
-    intro r o pv ho hv
-    by_cases hr : r.node < st.length
-    · -- an older Var: nothing changed
-      have ho' : st.var? r = some o := by rw [← var?_append_lt st n r hr]; exact ho
-      have : denote bind (st ++ [n]) r = denote bind st r := by
-        unfold denote
-        rw [table_snoc, List.getElem?_append_left (by rw [hlen]; exact hr)]
-      rw [this]
-      exact hvals r o pv ho' hv
-    · -- a Var of the new node
-      have hlt := var?_some_lt _ r o ho
-      have hrn : r.node = st.length := by simp at hlt; omega
-      have hnode : (st ++ [n])[st.length]? = some n := by simp
-      have hout : n.outputs[r.out]? = some o := by
-        simpa [State.var?, hrn] using ho
-      have hmem : o ∈ n.outputs := List.mem_of_getElem? hout
-      have hok := reachable_inv _ hreach' st.length n hnode
-      obtain ⟨hkind, hins⟩ := hok.2.1 ⟨o, hmem, by simp [hv]⟩
-      -- the run-time values of the inputs are the values that were fed
-      have hmap : n.inputs.map (fun i =>
-            (((table bind st)[i.node]?.bind fun row => row[i.out]?).join).getD Payload.none)
-          = n.inputs.map (payloadOf (st ++ [n])) := by
-        apply List.map_congr_left
-        intro i hi
-        obtain ⟨hilt, oi, h1, h2⟩ := hins i hi
-        have h1' : st.var? i = some oi := by rw [← var?_append_lt st n i hilt]; exact h1
-        obtain ⟨pvi, hpvi⟩ := Option.isSome_iff_exists.mp h2
-        have := hvals i oi pvi h1' hpvi
-        unfold denote at this
-        rw [this]
-        simp [payloadOf, h1, hpvi]
-      have hsem : n.sem (n.inputs.map (payloadOf (st ++ [n]))) o.key = some pv.value := by
-        cases hk : n.kind with
-        | argument => exact absurd hk hkind
-        | constant => exact hok.2.2 hk o hmem pv hv _
-        | standard => exact hf st.length n hnode (Or.inl hk) o hmem pv hv
-        | inline => exact hf st.length n hnode (Or.inr hk) o hmem pv hv
-      unfold denote
-      rw [table_snoc, hrn, ← hlen]
-      simp only [List.getElem?_concat_length, Option.bind_some]
-      have hrow : rowOf bind (table bind st) (table bind st).length n
-          = n.outputs.map fun o => n.sem (n.inputs.map (payloadOf (st ++ [n]))) o.key := by
-        unfold rowOf
-        cases hk : n.kind with
-        | argument => exact absurd hk hkind
-        | constant => simp only [hmap]
-        | standard => simp only [hmap]
-        | inline => simp only [hmap]
-      rw [hrow, List.getElem?_map, hout]
-      simp [hsem]
-
-/-- **fold_correct.** For every reachable program state: *if* the backend was extensionally the
-    run-time semantics at every operator / inlined-model call (`Faithful`), *then* every Var that
-    carries a propagated value has exactly that value at run time **under every binding of the model
-    inputs** - `denote bind` evaluates the whole program node by node from the binding. (Induction
-    over the history; the fed values are run-time values by the induction hypothesis, Arguments never
-    occur below a valued Var, Constants denote their embedded array.) `denote` is this file's own
-    evaluator of histories; its agreement with the built ONNX model is C01's `valid_sound`. -/
-theorem fold_correct (bind : Nat → Payload) (st : State) (h : Reachable Variant.fixed st)
-    (hf : Faithful st) (r : VarRef) (o : OutVar) (pv : PropValue)
-    (ho : st.var? r = some o) (hv : o.value = some pv) :
-    denote bind st r = some pv.value :=
-  (fold_correct_aux bind st h hf).2 r o pv ho hv
-
-/-- The propagated value does not depend on the binding: two bindings give the same run-time value. -/
-theorem fold_binding_independent (b1 b2 : Nat → Payload) (st : State)
-    (h : Reachable Variant.fixed st) (hf : Faithful st) (r : VarRef) (o : OutVar) (pv : PropValue)
-    (ho : st.var? r = some o) (hv : o.value = some pv) :
-    denote b1 st r = denote b2 st r := by
-  rw [fold_correct b1 st h hf r o pv ho hv, fold_correct b2 st h hf r o pv ho hv]
-
-
 /-! ### the guards: nodes that do not propagate (sampling operators, subgraph carriers, inlined control flow, NONE) -/
 
 /-- `merge` with no backend values attaches nothing to fresh outputs. -/
@@ -659,6 +502,225 @@ theorem guarded_nodes_valueless (st : State) (h : Reachable Variant.fixed st) :
             obtain ⟨p, hp', rfl⟩ := ho
             exact hval p hp'
 
+/-- A node that samples was constructed without propagating. -/
+theorem sampling_guarded (st : State) (h : Reachable Variant.fixed st) :
+    ∀ (idx : Nat) (n : NodeRec), st[idx]? = some n → n.sampling = true → n.guarded = true := by
+  induction h with
+  | empty => intro idx n hn; simp at hn
+  | @step st st' s _ hs ih =>
+    have key : ∀ (sel : BackendSel) (t : Traits), t.sampling = true → (!propagates sel t) = true := by
+      intro sel t ht
+      cases sel <;> simp [propagates, Traits.skips, ht]
+    cases s with
+    | argument key ty =>
+      simp only [step, Except.ok.injEq] at hs
+      subst hs
+      intro idx n hn hg
+      rcases getElem?_snoc st _ idx n hn with h1 | ⟨_, rfl⟩
+      · exact ih idx n h1 hg
+      · cases hg
+    | constant key ty p =>
+      simp only [step, Except.ok.injEq] at hs
+      subst hs
+      intro idx n hn hg
+      rcases getElem?_snoc st _ idx n hn with h1 | ⟨_, rfl⟩
+      · exact ih idx n h1 hg
+      · cases hg
+    | standard sel inputs inNames outs t b sem =>
+      simp only [step] at hs
+      split at hs
+      · cases hs
+      · split at hs
+        · cases hs
+        · simp only [Except.ok.injEq] at hs
+          subst hs
+          intro idx n hn hg
+          rcases getElem?_snoc st _ idx n hn with h1 | ⟨_, rfl⟩
+          · exact ih idx n h1 hg
+          · exact key sel t hg
+    | inline sel inputs inNames gnames outs t b sem =>
+      simp only [step] at hs
+      split at hs
+      · cases hs
+      · split at hs
+        · cases hs
+        · simp only [Except.ok.injEq] at hs
+          subst hs
+          intro idx n hn hg
+          rcases getElem?_snoc st _ idx n hn with h1 | ⟨_, rfl⟩
+          · exact ih idx n h1 hg
+          · exact key sel t hg
+
+/-- **sampling_nodes_valueless.** In every reachable state no output of a sampling node carries a value. -/
+theorem sampling_nodes_valueless (st : State) (h : Reachable Variant.fixed st) (idx : Nat) (n : NodeRec)
+    (hn : st[idx]? = some n) (hs : n.sampling = true) : ∀ o ∈ n.outputs, o.value = none :=
+  guarded_nodes_valueless st h idx n hn (sampling_guarded st h idx n hn hs)
+
+/-! ### fold_correct over whole histories -/
+
+/-- The payload a Var carries (the `none` payload if it carries nothing). -/
+def payloadOf (st : State) (r : VarRef) : Payload :=
+  match (st.var? r).bind (·.value) with
+  | some pv => pv.value
+  | none => .none
+
+/-- **The hypothesis of `fold_correct`**: on every operator / inlined-model node, each value the
+    backend's result led spox to attach is the node's run-time meaning `sem` applied to the values
+    that were fed - "the backend is extensionally the run-time semantics on constant-fed singleton
+    models". (For Constant / initializer nodes nothing is assumed: that their value is the embedded
+    array is part of the invariant.) -/
+def Faithful (st : State) : Prop :=
+  ∀ (idx : Nat) (n : NodeRec), st[idx]? = some n → (n.kind = .standard ∨ n.kind = .inline) →
+    ∀ o ∈ n.outputs, ∀ pv, o.value = some pv →
+      n.sem (n.inputs.map (payloadOf st)) o.key = some pv.value
+
+theorem step_snoc (v : Variant) (st st' : State) (s : Step) (h : step v st s = .ok st') :
+    ∃ n, st' = st ++ [n] := by
+  cases s with
+  | argument key ty => simp only [step, Except.ok.injEq] at h; exact ⟨_, h.symm⟩
+  | constant key ty p => simp only [step, Except.ok.injEq] at h; exact ⟨_, h.symm⟩
+  | standard sel inputs inNames outs hasSub b sem =>
+    simp only [step] at h
+    split at h
+    · cases h
+    · split at h
+      · cases h
+      · simp only [Except.ok.injEq] at h; exact ⟨_, h.symm⟩
+  | inline sel inputs inNames gnames outs traits b sem =>
+    simp only [step] at h
+    split at h
+    · cases h
+    · split at h
+      · cases h
+      · simp only [Except.ok.injEq] at h; exact ⟨_, h.symm⟩
+
+theorem table_snoc (bind : Nat → Payload) (smp : Nat → String → Option Payload) (st : State) (n : NodeRec) :
+    table bind smp (st ++ [n]) =
+      table bind smp st ++ [rowOf bind smp (table bind smp st) (table bind smp st).length n] := by
+  simp [table, List.foldl_append]
+
+theorem var?_append_lt (st : State) (n : NodeRec) (r : VarRef) (h : r.node < st.length) :
+    State.var? (st ++ [n]) r = st.var? r := by
+  simp [State.var?, List.getElem?_append_left h]
+
+theorem payloadOf_append (st : State) (n : NodeRec) (i : VarRef) (oi : OutVar)
+    (h : st.var? i = some oi) : payloadOf (st ++ [n]) i = payloadOf st i := by
+  simp [payloadOf, var?_append st n i oi h, h]
+
+theorem Faithful.prefix {st : State} {n : NodeRec} (hr : Reachable Variant.fixed st)
+    (hf : Faithful (st ++ [n])) : Faithful st := by
+  intro idx m hm hk o ho pv hpv
+  have hlt : idx < st.length := by
+    rcases Nat.lt_or_ge idx st.length with h1 | h1
+    · exact h1
+    · simp [List.getElem?_eq_none h1] at hm
+  have hm' : (st ++ [n])[idx]? = some m := by rw [List.getElem?_append_left hlt]; exact hm
+  have := hf idx m hm' hk o ho pv hpv
+  have hok := (reachable_inv st hr idx m hm).2.1 ⟨o, ho, by simp [hpv]⟩
+  have hmap : m.inputs.map (payloadOf (st ++ [n])) = m.inputs.map (payloadOf st) := by
+    apply List.map_congr_left
+    intro i hi
+    obtain ⟨_, oi, h1, _⟩ := hok.2 i hi
+    exact payloadOf_append st n i oi h1
+  rw [hmap] at this
+  exact this
+
+theorem fold_correct_aux (bind : Nat → Payload) (smp : Nat → String → Option Payload) (st : State) (h : Reachable Variant.fixed st) :
+    Faithful st →
+      (table bind smp st).length = st.length ∧
+      ∀ r o pv, st.var? r = some o → o.value = some pv → denote bind smp st r = some pv.value := by
+  induction h with
+  | empty =>
+    intro _
+    refine ⟨rfl, ?_⟩
+    intro r o pv ho
+    simp [State.var?] at ho
+  | @step st st' s hreach hs ih =>
+    intro hf
+    obtain ⟨n, rfl⟩ := step_snoc _ _ _ s hs
+    have hreach' : Reachable Variant.fixed (st ++ [n]) := Reachable.step s hreach hs
+    obtain ⟨hlen, hvals⟩ := ih (Faithful.prefix hreach hf)
+    refine ⟨by rw [table_snoc]; simp [hlen], ?_⟩
+    intro r o pv ho hv
+    by_cases hr : r.node < st.length
+    · -- an older Var: nothing changed
+      have ho' : st.var? r = some o := by rw [← var?_append_lt st n r hr]; exact ho
+      have : denote bind smp (st ++ [n]) r = denote bind smp st r := by
+        unfold denote
+        rw [table_snoc, List.getElem?_append_left (by rw [hlen]; exact hr)]
+      rw [this]
+      exact hvals r o pv ho' hv
+    · -- a Var of the new node
+      have hlt := var?_some_lt _ r o ho
+      have hrn : r.node = st.length := by simp at hlt; omega
+      have hnode : (st ++ [n])[st.length]? = some n := by simp
+      have hout : n.outputs[r.out]? = some o := by
+        simpa [State.var?, hrn] using ho
+      have hmem : o ∈ n.outputs := List.mem_of_getElem? hout
+      have hok := reachable_inv _ hreach' st.length n hnode
+      obtain ⟨hkind, hins⟩ := hok.2.1 ⟨o, hmem, by simp [hv]⟩
+      -- the run-time values of the inputs are the values that were fed
+      have hmap : n.inputs.map (fun i =>
+            (((table bind smp st)[i.node]?.bind fun row => row[i.out]?).join).getD Payload.none)
+          = n.inputs.map (payloadOf (st ++ [n])) := by
+        apply List.map_congr_left
+        intro i hi
+        obtain ⟨hilt, oi, h1, h2⟩ := hins i hi
+        have h1' : st.var? i = some oi := by rw [← var?_append_lt st n i hilt]; exact h1
+        obtain ⟨pvi, hpvi⟩ := Option.isSome_iff_exists.mp h2
+        have := hvals i oi pvi h1' hpvi
+        unfold denote at this
+        rw [this]
+        simp [payloadOf, h1, hpvi]
+      have hsem : n.sem (n.inputs.map (payloadOf (st ++ [n]))) o.key = some pv.value := by
+        cases hk : n.kind with
+        | argument => exact absurd hk hkind
+        | constant => exact hok.2.2 hk o hmem pv hv _
+        | standard => exact hf st.length n hnode (Or.inl hk) o hmem pv hv
+        | inline => exact hf st.length n hnode (Or.inr hk) o hmem pv hv
+      unfold denote
+      rw [table_snoc, hrn, ← hlen]
+      simp only [List.getElem?_concat_length, Option.bind_some]
+      have hrow : rowOf bind smp (table bind smp st) (table bind smp st).length n
+          = n.outputs.map fun o => n.sem (n.inputs.map (payloadOf (st ++ [n]))) o.key := by
+        have hns : n.sampling = false := by
+          cases hsm : n.sampling with
+          | false => rfl
+          | true =>
+            have := sampling_nodes_valueless _ hreach' st.length n hnode hsm o hmem
+            rw [this] at hv; cases hv
+        unfold rowOf
+        cases hk : n.kind with
+        | argument => exact absurd hk hkind
+        | constant => simp only [hns, hmap, Bool.false_eq_true, ↓reduceIte]
+        | standard => simp only [hns, hmap, Bool.false_eq_true, ↓reduceIte]
+        | inline => simp only [hns, hmap, Bool.false_eq_true, ↓reduceIte]
+      rw [hrow, List.getElem?_map, hout]
+      simp [hsem]
+
+/-- **fold_correct.** For every reachable program state: *if* the backend was extensionally the
+    run-time semantics at every operator / inlined-model call (`Faithful`), *then* every Var that
+    carries a propagated value has exactly that value at run time **under every binding of the model
+    inputs and every outcome of the random draws** - `denote bind smp` evaluates the whole program node by
+    node from the binding, a sampling node (sampling operator, inlined model that samples) yielding whatever
+    `smp` says it drew in that run: the theorem quantifies over ALL sample functions, i.e. the semantics of
+    sampling nodes is relational and no function `sem` of their inputs is assumed for them. (Induction
+    over the history; the fed values are run-time values by the induction hypothesis, Arguments never
+    occur below a valued Var, Constants denote their embedded array.) `denote` is this file's own
+    evaluator of histories; its agreement with the built ONNX model is C01's `valid_sound`. -/
+theorem fold_correct (bind : Nat → Payload) (smp : Nat → String → Option Payload) (st : State) (h : Reachable Variant.fixed st)
+    (hf : Faithful st) (r : VarRef) (o : OutVar) (pv : PropValue)
+    (ho : st.var? r = some o) (hv : o.value = some pv) :
+    denote bind smp st r = some pv.value :=
+  (fold_correct_aux bind smp st h hf).2 r o pv ho hv
+
+/-- The propagated value does not depend on the binding: two bindings give the same run-time value. -/
+theorem fold_binding_independent (b1 b2 : Nat → Payload) (s1 s2 : Nat → String → Option Payload) (st : State)
+    (h : Reachable Variant.fixed st) (hf : Faithful st) (r : VarRef) (o : OutVar) (pv : PropValue)
+    (ho : st.var? r = some o) (hv : o.value = some pv) :
+    denote b1 s1 st r = denote b2 s2 st r := by
+  rw [fold_correct b1 s1 st h hf r o pv ho hv, fold_correct b2 s2 st h hf r o pv ho hv]
+
 /-- `fold_correct`'s hypothesis asks NOTHING of a node without values: for sampling operators (whose
     run-time result is no function of their inputs - any `sem` whatsoever may stand for one run's draw)
     and control-flow carriers the backend is never assumed to compute the run-time semantics. So
@@ -708,11 +770,12 @@ theorem generated_overrides_modelled :
     default-domain operator listed in `_NON_DETERMINISTIC_OPS`; nothing else is listed (a deterministic
     operator would silently lose propagation); `propagate_values_onnx` consults the set and returns `{}`
     before the backend is obtained; `_Inline.propagate_values` tests for subgraph attributes before the
-    backend is obtained. These are the facts the harness reports as `Traits` to the model. -/
+    backend is obtained, and for nodes listed in the set (fix d14b9fe: an inlined model that samples). These are the facts the harness reports as `Traits` to the model. -/
 theorem generated_sampling_guarded :
     (Generated.VPSampling.sampling.all fun p => p.1 == "" && Generated.VPSampling.listed.contains p.2) = true ∧
     (Generated.VPSampling.listed.all fun n => Generated.VPSampling.sampling.contains ("", n)) = true ∧
-    Generated.VPSampling.guardCalled = true ∧ Generated.VPSampling.inlineGuard = true := by decide
+    Generated.VPSampling.guardCalled = true ∧ Generated.VPSampling.inlineGuard = true ∧
+    Generated.VPSampling.inlineSamplingGuard = true := by decide
 
 /-! ### the pinned tree -/
 
@@ -747,8 +810,8 @@ def pidOf : Option Payload → Option Nat
 
 /-- `denote` evaluates the demo program: the folded add has its value under any binding, the
     argument-dependent add follows the binding's meaning (here `sem` ignores it). -/
-example : pidOf (denote (fun _ => .arr .i64 [2] 9) (run Variant.fixed [] demo) ⟨2, 0⟩) = some 2 ∧
-    pidOf (denote (fun _ => .arr .i64 [2] 9) (run Variant.fixed [] demo) ⟨1, 0⟩) = some 9 := by decide
+example : pidOf (denote (fun _ => .arr .i64 [2] 9) (fun _ _ => none) (run Variant.fixed [] demo) ⟨2, 0⟩) = some 2 ∧
+    pidOf (denote (fun _ => .arr .i64 [2] 9) (fun _ _ => none) (run Variant.fixed [] demo) ⟨1, 0⟩) = some 9 := by decide
 
 /-- Non-vacuity of the guards: the same constant-fed operator with the same (result-returning) backend
     attaches a value when it propagates and none when it is a sampling operator, a subgraph carrier, or
@@ -769,5 +832,20 @@ example : valuedMap (run Variant.fixed [] (guardDemo .onnxruntime ⟨false, fals
 example : valuedMap (run Variant.fixed [] (guardDemo .none Traits.plain)) = [[true], [false], [false]] := by decide
 example : propagates .reference Traits.plain = true ∧ propagates .none Traits.plain = false ∧
     propagates .onnxruntime ⟨true, false, false⟩ = false := by decide
+
+/-- Non-vacuity of the sampling semantics: a sampling node's run-time value is the draw of that run (77 here,
+    whatever its `sem` field says), it carries no propagated value, and the folded Add next to it keeps its value
+    under that and every other draw. -/
+def demoS : List Step :=
+  [ .constant "output" (some (.tensor .i64 (some [.const 2]))) (.arr .i64 [2] 1),
+    .standard .reference [⟨0, 0⟩] ["input"] [("output", some (.tensor .i64 (some [.const 2])))] ⟨true, false, false⟩
+      (.ret ["output"] [.arr .i64 [2] 5]) (fun _ _ => some (.arr .i64 [2] 5)),
+    .standard .reference [⟨0, 0⟩, ⟨0, 0⟩] ["A", "B"] [("C", some (.tensor .i64 (some [.const 2])))] Traits.plain
+      (.ret ["C"] [.arr .i64 [2] 2]) (fun _ _ => some (.arr .i64 [2] 2)) ]
+
+example : valuedMap (run Variant.fixed [] demoS) = [[true], [false], [true]] := by decide
+example : pidOf (denote (fun _ => .none) (fun _ _ => some (.arr .i64 [2] 77)) (run Variant.fixed [] demoS) ⟨1, 0⟩) = some 77 ∧
+    pidOf (denote (fun _ => .none) (fun _ _ => some (.arr .i64 [2] 77)) (run Variant.fixed [] demoS) ⟨2, 0⟩) = some 2 ∧
+    pidOf (denote (fun _ => .none) (fun _ _ => none) (run Variant.fixed [] demoS) ⟨2, 0⟩) = some 2 := by decide
 
 end C07
